@@ -136,7 +136,7 @@ def run_exec(path, requests, timeout=EXEC_TIMEOUT, _locate=True):
         lines.append(json.dumps(r, ensure_ascii=False))
     data = ("\n".join(lines) + "\n").encode("utf-8")
     # generous watchdog: executors answer ~1e5 requests per second
-    budget = min(timeout, 90 + 0.01 * len(requests))
+    budget = min(timeout, 40 + 0.004 * len(requests))
     try:
         p = subprocess.run([path], input=data, capture_output=True, timeout=budget)
     except subprocess.TimeoutExpired:
@@ -170,7 +170,7 @@ def run_exec(path, requests, timeout=EXEC_TIMEOUT, _locate=True):
     return resps
 
 
-HANG_SINGLE_S = 30
+HANG_SINGLE_S = 15
 
 
 def _hangs(path, requests, budget):
@@ -184,7 +184,7 @@ def _hangs(path, requests, budget):
 
 def _locate_hang(path, requests):
     """Index of a request that reproducibly never returns (bisection over prefixes), else None."""
-    budget = lambda n: 20 + 0.01 * n
+    budget = lambda n: 4 + 0.002 * n
     lo, hi = 0, len(requests)
     if not _hangs(path, requests, budget(hi)):
         return None
@@ -426,7 +426,13 @@ def build_violation_exit(pid, tier, seed, e, t0):
 def run_cases(part, bin_path, cases, judge, jctx, chunk=40000):
     """Executes the requests of all cases through one executor process per chunk and judges each case."""
     i = 0
+    marker = os.path.join(OUT, "hang-%s" % os.environ.get("VERIF_RUN_ID", "0"))
     while i < len(cases):
+        if os.path.exists(marker):
+            # another worker of this run already located a request that never returns: the verdict is decided,
+            # do not spend minutes per task rediscovering it
+            part.count("cases_skipped_after_located_hang", len(cases) - i)
+            return
         sub = cases[i:i + chunk]
         i += chunk
         reqs = []
@@ -443,6 +449,9 @@ def run_cases(part, bin_path, cases, judge, jctx, chunk=40000):
                 # the process died inside one request: that operation did not return - a violation of the
                 # property whose workload this is; drop the case and go on with the others
                 crashes += 1
+                if "non-termination" in e.how:
+                    os.makedirs(OUT, exist_ok=True)
+                    open(marker, "w").write(json.dumps(e.request))
                 ci = next(i for i, (o, n) in enumerate(spans) if o <= e.index < o + n)
                 c = sub[ci]
                 part.evals += 1
@@ -453,6 +462,8 @@ def run_cases(part, bin_path, cases, judge, jctx, chunk=40000):
                 part.violation(sig, "%s: the executor process died (%s) while executing %s - the operation neither returned nor panicked" % (
                     str(jctx.get("module", "")).upper(), e.how, {k: v for k, v in e.request.items() if k != "table"}),
                     {"module": jctx.get("module"), "backend": jctx.get("backend"), "bin": os.path.basename(bin_path), "case": dict(c, reqs=[e.request])})
+                if "non-termination" in e.how:
+                    return
                 if crashes > 12:
                     raise Inconclusive("executor keeps dying (more than 12 crashing requests in one chunk)")
                 del sub[ci]
